@@ -42,32 +42,72 @@ def magnitude_of(p):
     return None
 
 
+def nonneg(p, depth=0):
+    """p >= 0 (or NaN) for every value of its atoms: abs/sqrt atoms, non-negative constants, products of those with a
+    positive coefficient, min/max/phi of such values"""
+    if not isinstance(p, Poly) or depth > 8:
+        return False
+    if p.is_zero():
+        return True
+    for m, c in p.t.items():
+        if c < 0:
+            return False
+        for a, e in m:
+            if e % 2 == 0:
+                continue
+            d = DEFS.get(a)
+            if d is None:
+                return False
+            op, xs = d
+            base = op.split(":")[0]
+            if base in ("abs", "sqrt"):
+                continue
+            if base in ("min", "phi", "clamp") and all(nonneg(x, depth + 1) for x in xs if isinstance(x, Poly)):
+                continue
+            if base == "max" and any(nonneg(x, depth + 1) for x in xs if isinstance(x, Poly)):
+                continue
+            if base in ("powf", "powi", "inv") and xs and isinstance(xs[0], Poly) and nonneg(xs[0], depth + 1):
+                continue
+            return False
+    return True
+
+
 class ClampFacts:
     """Upper-bound facts for symbolic values from recognised clamp idioms:
-       min[.., B, ..] <= B ;  phi created by `if v > B { v = B }` <= B ;  clamp[v, lo, hi]"""
+       min[.., B, ..] <= B ;  the phi created by `if |v| > B { v = A }` with |A| <= bound ;  clamp[v, lo, hi].
+       The `if` idiom is checked on the symbolic values of the comparison operands: the tested quantity must be the
+       magnitude of the OLD value of the variable (abs[v], or v itself when v is provably non-negative); a test of the
+       signed value proves nothing for negative steps."""
 
     def __init__(self, sx):
         self.sx = sx
-        self.phi_bound = {}    # phi atom -> set of bound polys
+        self.phi_bound = {}    # phi atom -> [(L, R, then value, else value)]
+        last_if = {}
         for ev in sx.trace:
+            if ev["kind"] == "if":
+                last_if[id(ev["node"])] = ev.get("cond")
+                continue
             if ev["kind"] != "joinphi":
                 continue
             n = ev["node"]
-            c = n["cond"]
-            if c.get("k") != "Binary" or c["op"] not in ("Gt", "Ge", "Lt", "Le"):
+            cv = last_if.get(id(n))
+            ca = cv.single_atom() if isinstance(cv, Poly) else None
+            d = DEFS.get(ca) if ca else None
+            if d is None or d[0] not in ("gt", "ge", "lt", "le") or len(d[1]) != 2:
                 continue
-            # then-branch: single assignment var = bound-expression
-            assigns = tast.find(n["then"], lambda z: z.get("k") == "Assign")
-            if len(assigns) != 1 or n.get("else") is not None:
+            L, R = d[1]
+            if d[0] in ("lt", "le"):
+                L, R = R, L          # R < L  ==  L > R
+            if n.get("else") is not None:
                 continue
-            a = assigns[0]
             for k, v in ev["created"].items():
-                if isinstance(v, Poly) and v.single_atom() and v.single_atom() in DEFS and DEFS[v.single_atom()][0] == "phi":
-                    ins = DEFS[v.single_atom()][1]
-                    self.phi_bound.setdefault(v.single_atom(), []).append((c, a, ins))
+                a = v.single_atom() if isinstance(v, Poly) else None
+                if a and a in DEFS and DEFS[a][0] == "phi" and len(DEFS[a][1]) == 2:
+                    v_then, v_old = DEFS[a][1]
+                    self.phi_bound.setdefault(a, []).append((L, R, v_then, v_old))
 
     def bounded_by(self, p, is_bound, depth=0):
-        """True if |p| (p a magnitude expression) is provably <= some value satisfying is_bound"""
+        """True if |p| is provably <= some value satisfying is_bound"""
         if not isinstance(p, Poly) or depth > 8:
             return False
         if is_bound(p):
@@ -83,7 +123,7 @@ class ClampFacts:
             if m is not None and self.bounded_by(m, is_bound, depth + 1):
                 return True
         args = min_args(p)
-        if len(args) > 1 and any(self.bounded_by(a, is_bound, depth + 1) for a in args):
+        if len(args) > 1 and any(self.bounded_by(a, is_bound, depth + 1) for a in args) and all(nonneg(a) for a in args):
             return True
         a = p.single_atom()
         if a and a in DEFS:
@@ -91,14 +131,13 @@ class ClampFacts:
             if op == "clamp" and len(xs) == 3:
                 return self.bounded_by(xs[2], is_bound, depth + 1) or is_bound(xs[2])
             if op == "phi" and a in self.phi_bound:
-                for c, asg, ins in self.phi_bound[a]:
-                    # `if v > B { v = B }`: both inputs are <= B provided the assigned value is the bound compared against
-                    if c["op"] in ("Gt", "Ge"):
-                        if tast.render(asg["r"]).replace(" ", "") and any(self.bounded_by(x, is_bound, depth + 1) for x in ins):
-                            # the assigned value must be (derived from) the right operand of the comparison
-                            rv = tast.render(c["r"])
-                            if rv in tast.render(asg["r"]):
-                                return True
+                for L, R, v_then, v_old in self.phi_bound[a]:
+                    # `if L > R { v = v_then }`: on the fall-through edge L <= R holds
+                    tested_old = isinstance(L, Poly) and isinstance(v_old, Poly) and (
+                        abs_inner(L) == v_old or L == magnitude_of(v_old) or (L == v_old and nonneg(v_old))
+                        or (abs_inner(L) is not None and magnitude_of(v_old) is not None and abs_inner(L) == magnitude_of(v_old)))
+                    if tested_old and self.bounded_by(R, is_bound, depth + 1) and self.bounded_by(v_then, is_bound, depth + 1):
+                        return True
             if op == "phi":
                 ins = [x for x in xs if isinstance(x, Poly)]
                 if ins and all(self.bounded_by(x, is_bound, depth + 1) for x in ins):
